@@ -4,6 +4,7 @@ import Driver.Engine
 import Driver.Policy
 import Driver.Handlers
 import Driver.Version
+import Driver.EventSerial
 
 def main (args : List String) : IO UInt32 := do
   let stdin ← IO.getStdin
@@ -13,4 +14,5 @@ def main (args : List String) : IO UInt32 := do
   | ["policy"] => Drv.loop stdin Drv.Policy.step (); return 0
   | ["handlers"] => Drv.loop stdin Drv.Handlers.step (); return 0
   | ["version"] => Drv.loop stdin Drv.Version.step (); return 0
+  | ["eventserial"] => Drv.loop stdin Drv.EventSerial.step {}; return 0
   | _ => IO.eprintln "usage: wfdriver <model>"; return 2
